@@ -129,6 +129,14 @@ pub struct RcScript {
     pub outages: Vec<Outage>,
     /// C13 mode: one partition held for the whole schedule, only timing is judged
     pub timing_only: bool,
+    /// publisher victims: every round publishes this many messages back to back, all but the last
+    /// with `feed` (no flush), each padded to `pub_pad` bytes — with enough of them the framed
+    /// writer reaches its back-pressure boundary and a lost connection is first noticed by
+    /// `poll_ready`, not by `poll_flush` (0 and 1: one `send` per round)
+    #[serde(default)]
+    pub pub_burst: usize,
+    #[serde(default)]
+    pub pub_pad: usize,
 }
 
 const CONNECT_TIMEOUT_MS: u64 = 10_000; // quinn's default max_idle_timeout bounds a handshake
@@ -219,26 +227,36 @@ async fn scenario(world: Rc<World>, sc: RcScript) -> AResult<(Vec<OutageResult>,
             let mut publisher = ACTOR.scope(vg, victim.publisher(topic).with_encoder(StringCodec).open()).await?;
             let l = logs.clone();
             let st = stop.clone();
+            let (burst, pad) = (sc.pub_burst, sc.pub_pad);
             tokio::task::spawn_local(ACTOR.scope(vg, async move {
                 let mut i = 0u64;
                 loop {
                     if *st.borrow() {
                         break;
                     }
-                    let started = virtual_ms();
-                    let r = publisher.send(format!("{i}")).await;
-                    let finished = virtual_ms();
-                    let (ok, err) = match &r {
-                        Ok(()) => (true, String::new()),
-                        Err(e) => (false, e.to_string()),
-                    };
-                    l.borrow_mut().ops.push(Op { idx: i, started_ms: started, finished_ms: finished, ok, err: err.clone() });
-                    if !ok {
-                        l.borrow_mut().victim_final = Some(err);
-                        poke();
+                    let mut failed = false;
+                    for j in 0..burst.max(1) {
+                        let started = virtual_ms();
+                        // zero-padded on the left: still parses as the same number
+                        let item = format!("{i:0>pad$}");
+                        let r = if j + 1 < burst { publisher.feed(item).await } else { publisher.send(item).await };
+                        let finished = virtual_ms();
+                        let (ok, err) = match &r {
+                            Ok(()) => (true, String::new()),
+                            Err(e) => (false, e.to_string()),
+                        };
+                        l.borrow_mut().ops.push(Op { idx: i, started_ms: started, finished_ms: finished, ok, err: err.clone() });
+                        if !ok {
+                            l.borrow_mut().victim_final = Some(err);
+                            poke();
+                            failed = true;
+                            break;
+                        }
+                        i += 1;
+                    }
+                    if failed {
                         break;
                     }
-                    i += 1;
                     tokio::time::sleep(Duration::from_millis(OP_PERIOD_MS)).await;
                 }
             }));
@@ -645,7 +663,7 @@ pub fn gen_c12(rng: &mut Rng, index: u64) -> RcScript {
         };
         outages.push(Outage { fault, quiet_ms_before: *rng.pick(&[0u64, 300, 1_000, 2_500]) });
     }
-    RcScript { net: NetCfg { seed: rng.next(), loss_ppm: *rng.pick(&[0u32, 0, 10_000]), dup_ppm: 0, min_delay_ms: rng.range(1, 10) as u32, jitter_ms: *rng.pick(&[0u32, 5]) }, rt_seed: rng.next(), kind, backoff, outages, timing_only: false }
+    RcScript { net: NetCfg { seed: rng.next(), loss_ppm: *rng.pick(&[0u32, 0, 10_000]), dup_ppm: 0, min_delay_ms: rng.range(1, 10) as u32, jitter_ms: *rng.pick(&[0u32, 5]) }, rt_seed: rng.next(), kind, backoff, outages, timing_only: false, pub_burst: *rng.pick(&[1usize, 1, 4, 6]), pub_pad: *rng.pick(&[0usize, 3_000, 3_000]) }
 }
 
 pub fn gen_c13(rng: &mut Rng, thorough: bool) -> RcScript {
@@ -660,7 +678,7 @@ pub fn gen_c13(rng: &mut Rng, thorough: bool) -> RcScript {
         backoff.step_ms = 0;
     }
     let outages = vec![Outage { fault: Fault::Partition { failed: backoff.max_attempts + 1 }, quiet_ms_before: 500 }];
-    RcScript { net: NetCfg::calm(rng.next()), rt_seed: rng.next(), kind, backoff, outages, timing_only: true }
+    RcScript { net: NetCfg::calm(rng.next()), rt_seed: rng.next(), kind, backoff, outages, timing_only: true, pub_burst: 1, pub_pad: 0 }
 }
 
 const HORIZON_MS: u64 = 200_000_000; // 2 * 10^5 virtual seconds
